@@ -52,6 +52,14 @@ type c07Case struct {
 	// SharedTLSConfigWith: the *tls.Config given to this Client (RootCAs only, no ServerName) was given
 	// to another Client, created for that other host, before.
 	SharedTLSConfigWith string `json:"shared_tls_config_with,omitempty"`
+	// AuthFirst: the Client is created with THIS authentication (a password-revealing one: PLAIN-NOENC,
+	// LOGIN-NOENC or CUSTOM-NOENC = smtp.PlainAuth with allowUnencryptedAuth) and the application then
+	// changes its mind through SetSMTPAuth(Auth) / SetSMTPAuthCustom (Auth "CUSTOM": the strict PlainAuth).
+	// What counts is the last word: Auth.
+	AuthFirst string `json:"auth_first,omitempty"`
+	// PriorOpen (with Prior): the first connection is NOT closed; the judged act is DialWithContext again,
+	// Send, Close on the same Client (the setters of SetupAfterPrior run in between).
+	PriorOpen bool `json:"prior_open,omitempty"`
 }
 
 func c07Policy(p string) mail.TLSPolicy {
@@ -192,10 +200,14 @@ func c07Run(c c07Case) []*core.Violation {
 	case "implicit":
 		opts = append(opts, mail.WithSSL())
 	}
-	if c.Auth != "" && c.Auth != "CUSTOM" {
+	switch {
+	case c.AuthFirst == "CUSTOM-NOENC":
+		opts = append(opts, mail.WithSMTPAuthCustom(smtp.PlainAuth("", c.User, c.Pass, c.Host, true)), mail.WithUsername(c.User), mail.WithPassword(c.Pass))
+	case c.AuthFirst != "":
+		opts = append(opts, mail.WithSMTPAuth(mail.SMTPAuthType(c.AuthFirst)), mail.WithUsername(c.User), mail.WithPassword(c.Pass))
+	case c.Auth != "" && c.Auth != "CUSTOM":
 		opts = append(opts, mail.WithSMTPAuth(mail.SMTPAuthType(c.Auth)), mail.WithUsername(c.User), mail.WithPassword(c.Pass))
-	}
-	if c.Auth == "CUSTOM" {
+	case c.Auth == "CUSTOM":
 		opts = append(opts, mail.WithSMTPAuthCustom(smtp.PlainAuth("", c.User, c.Pass, c.Host, false)))
 	}
 	if c.SharedTLSConfigWith != "" {
@@ -211,6 +223,17 @@ func c07Run(c c07Case) []*core.Violation {
 	if err != nil {
 		ln.Close()
 		return []*core.Violation{core.V("HARNESS-newclient", "%v", err)}
+	}
+	if c.AuthFirst != "" {
+		switch c.Auth {
+		case "CUSTOM":
+			cl.SetSMTPAuthCustom(smtp.PlainAuth("", c.User, c.Pass, c.Host, false))
+		case "":
+			cl.SetSMTPAuth(mail.SMTPAuthNoAuth)
+		default:
+			cl.SetSMTPAuth(mail.SMTPAuthType(c.Auth))
+		}
+		rec.AddExtra("auth_changed_through_setter_cases", 1)
 	}
 	applySetup := func() *core.Violation {
 		for _, st := range c.Setup {
@@ -248,7 +271,7 @@ func c07Run(c c07Case) []*core.Violation {
 		go func() {
 			defer close(pdone)
 			defer func() { _ = recover() }()
-			if err := cl.DialWithContext(context.Background()); err == nil {
+			if err := cl.DialWithContext(context.Background()); err == nil && !c.PriorOpen {
 				_ = cl.Close()
 			}
 		}()
@@ -259,7 +282,9 @@ func c07Run(c c07Case) []*core.Violation {
 			rec.AddExtra("inconclusive_watchdog", 1)
 			return nil
 		}
-		prior.Release()
+		if !c.PriorOpen {
+			prior.Release()
+		}
 		firstJudged = len(ln.SessionsSnapshot())
 		ln.SetServer(srv)
 		if c.SetupAfterPrior {
@@ -278,6 +303,16 @@ func c07Run(c c07Case) []*core.Violation {
 				done <- fmt.Errorf("PANIC: %v", p)
 			}
 		}()
+		if c.PriorOpen {
+			// the application dials again without having closed the first connection
+			err := cl.DialWithContext(context.Background())
+			if err == nil {
+				err = cl.Send(m)
+				_ = cl.Close()
+			}
+			done <- err
+			return
+		}
 		done <- cl.DialAndSendWithContext(context.Background(), m)
 	}()
 	var callErr error
@@ -288,7 +323,7 @@ func c07Run(c c07Case) []*core.Violation {
 		rec.AddExtra("inconclusive_watchdog", 1)
 		return nil
 	}
-	sessions := ln.Close()
+	sessions := ln.CloseFrom(firstJudged)
 	if callErr != nil && strings.HasPrefix(callErr.Error(), "PANIC") {
 		return []*core.Violation{core.V("panic", "%v", callErr)}
 	}
@@ -434,6 +469,37 @@ func c07LifecycleCases() []c07Case {
 	type beh struct {
 		adv       bool
 		reply, hs string
+	}
+	// the authentication changed through a setter after a password-revealing one was configured first
+	for _, first := range []string{"PLAIN-NOENC", "LOGIN-NOENC", "CUSTOM-NOENC"} {
+		for _, auth := range []string{"PLAIN", "LOGIN", "CUSTOM", "AUTODISCOVER", "CRAM-MD5", ""} {
+			for _, pol := range []string{"none", "opportunistic", "mandatory"} {
+				for _, host := range []string{"127.0.0.1", "127.0.0.2"} {
+					for _, adv := range []bool{false, true} {
+						out = append(out, c07Case{Policy: pol, AuthFirst: first, Auth: auth, Host: host, StartTLS: adv, TLSReply: "ok", Handshake: "ok", AuthList: "PLAIN LOGIN CRAM-MD5"})
+					}
+				}
+			}
+		}
+	}
+	// the application dials again WITHOUT having closed the first connection, after tightening the policy
+	for _, host := range []string{"127.0.0.1", "127.0.0.2"} {
+		for _, auth := range []string{"", "PLAIN", "CRAM-MD5"} {
+			for _, adv := range []bool{false, true} {
+				for _, setup := range [][]string{{"policy:mandatory"}, {"portpolicy:mandatory"}} {
+					for _, opt := range []string{"none", "opportunistic"} {
+						out = append(out, c07Case{Policy: "mandatory", Opt: opt, Setup: setup, Prior: true, SetupAfterPrior: true, PriorOpen: true, Auth: auth, Host: host, StartTLS: adv, TLSReply: "ok", Handshake: "ok", AuthList: "PLAIN LOGIN CRAM-MD5"})
+					}
+				}
+				for _, setup := range [][]string{{"ssl:true"}} {
+					out = append(out, c07Case{Policy: "implicit", Opt: "none", Setup: setup, Prior: true, SetupAfterPrior: true, PriorOpen: true, Auth: auth, Host: host, StartTLS: adv, TLSReply: "ok", Handshake: "garbage", AuthList: "PLAIN LOGIN"})
+				}
+				// ... or without any change (the second connection obeys the same policy as the first)
+				for _, pol := range []string{"mandatory", "opportunistic", "none"} {
+					out = append(out, c07Case{Policy: pol, Prior: true, PriorOpen: true, Auth: auth, Host: host, StartTLS: adv, TLSReply: "ok", Handshake: "ok", AuthList: "PLAIN LOGIN CRAM-MD5"})
+				}
+			}
+		}
 	}
 	for _, pol := range []string{"mandatory", "opportunistic", "none"} {
 		setups := [][]string{{"policy:" + pol}, {"portpolicy:" + pol}, {"portpolicy:opportunistic", "portpolicy:" + pol}, {"policy:none", "portpolicy:" + pol},
